@@ -9,6 +9,7 @@ import (
 	"strings"
 	"time"
 
+	"verif/engine/smt"
 	"verif/engine/sym"
 )
 
@@ -59,9 +60,14 @@ func cmdRun(args []string) {
 	sched := fs.Bool("sched", false, "scheduler mode")
 	maporder := fs.Bool("maporder", false, "nondeterministic map order")
 	known := fs.String("known", "", "comma-separated active known-finding ids")
+	solverName := fs.String("solver", "z3", "z3|z3-new|cvc5")
+	smtlog := fs.String("smtlog", "", "log worker 0 queries")
 	params := paramFlags{}
 	fs.Var(params, "param", "k=v")
 	fs.Parse(args)
+	if *verbose {
+		smt.SlowLog = os.Stderr
+	}
 	m := sym.Modules[*mod]
 	var ml []string
 	if *models != "" {
@@ -89,7 +95,7 @@ func cmdRun(args []string) {
 			ka[k] = true
 		}
 	}
-	ex := sym.NewExplorer(prog.Prog, sym.Config{Harness: fn, Params: params, Workers: *workers, Verbose: *verbose, UnwindCap: *unwind, Scheduler: *sched, MapOrderNondet: *maporder, KnownActive: ka})
+	ex := sym.NewExplorer(prog.Prog, sym.Config{Harness: fn, Params: params, Workers: *workers, Verbose: *verbose, UnwindCap: *unwind, Scheduler: *sched, MapOrderNondet: *maporder, KnownActive: ka, SolverName: *solverName, SmtLog: *smtlog})
 	t1 := time.Now()
 	ex.Run()
 	fmt.Printf("paths=%d outcomes=%v decisions=%d time=%v\n", ex.Paths, ex.Outcomes, ex.Decisions, time.Since(t1))
